@@ -77,6 +77,9 @@ func (in *Interp) lookupIntrinsic(fn *ssa.Function) Intrinsic {
 	}
 	pp := pkgPathOf(fn)
 	if pp != "" {
+		if strings.HasPrefix(pp, "github.com/openfga/openfga/") && strings.HasSuffix(pp, "/metrics") {
+			return noopIntrinsic
+		}
 		for _, p := range noopPrefixes {
 			if strings.HasPrefix(pp, p) {
 				return noopIntrinsic
@@ -597,6 +600,30 @@ func init() {
 // ufArg flattens a harness value into UF argument terms.
 func (in *Interp) ufArg(e Value) []*Term {
 	switch v := e.(type) {
+	case *Union:
+		// ite over the alternatives that flatten to the same shape (nil interfaces are skipped)
+		var res []*Term
+		for i := len(v.alts) - 1; i >= 0; i-- {
+			a := v.alts[i]
+			if itf, ok := a.v.(Iface); ok && itf.t == nil {
+				continue
+			}
+			ts := in.ufArg(a.v)
+			if res == nil {
+				res = ts
+				continue
+			}
+			if len(ts) != len(res) {
+				abortf("UF argument union with differently shaped alternatives")
+			}
+			for k := range res {
+				res[k] = in.ts.Ite(a.g, ts[k], res[k])
+			}
+		}
+		if res == nil {
+			return []*Term{in.ts.BV(8, 0)}
+		}
+		return res
 	case *Term:
 		return []*Term{v}
 	case Iface:
